@@ -528,11 +528,23 @@ def csize(fmt):
 
 
 def observe(case):
+    """`_observe`, with an exception of the real code anywhere on the way (sizing helpers, map creation, read()) turned
+    into an observation the oracle judges instead of an abort of the whole run"""
+    try:
+        return _observe(case)
+    except Exception as e:
+        return "raised=" + exc_name(e), None, {"build": f"{exc_name(e)}: {type(e).__name__}: {e}"}
+
+
+def _observe(case):
     """run the real code on the case; returns (canonical output line, model input, observations for the oracle)"""
     import random
     import ebpfcat.arraymap as am
     kind = case["kind"]
-    b = Built(case, cpu_text=case.get("cpufile"))
+    try:
+        b = Built(case, cpu_text=case.get("cpufile"))
+    except Exception as e:      # the real classes refuse the declaration set: nothing was laid out at all
+        return "build=" + exc_name(e), None, {"build": f"{exc_name(e)}: {type(e).__name__}: {e}"}
     try:
         obs = {"sets": [], "prog": "ok", "reads": {}, "percpu": {}, "notes": []}
         specs = dict(case["classes"])
@@ -661,6 +673,9 @@ def oracle(ctx, case, obs):
     """the property text on the implementation's behaviour: disjoint ranges inside the map; what one side wrote
     the other side reads, for every variable (first differing variable reported)"""
     cls = None
+    if not ctx.require("build" not in obs, "declaring the variables / instantiating the program raised: no variable has bytes of its own",
+                       case, obs.get("build"), cls):
+        return
     for mn, rs in obs["ranges"].items():
         sz = obs["sizes"].get(mn)
         bad = next((f"{k} at {p}+{s} in a map of {sz}" for p, s, k in rs
@@ -754,7 +769,8 @@ def run(ctx):
             line, mi, obs = observe(case)
             ctx.case(case, nontrivial=nontrivial(case), kind=kind + (":" + shape(case) if shape(case) else ""))
             oracle(ctx, case, obs)
-            cases.append((case, mi)); lines.append(line)
+            if mi is not None:      # (a declaration set the real code refused is an oracle failure; the model has no line for it)
+                cases.append((case, mi)); lines.append(line)
     model = ctx.drive(DRIVER, [mi for c, mi in cases], "collect")
     if model is not None:
         for (c, mi), i, m in zip(cases, lines, model):
